@@ -66,9 +66,16 @@ type HarnessStats struct {
 	Witnesses    []*Replay // models of completed paths for native validation
 	Cross        map[string]string
 	IntQueries   int
+	RaceEvents   int
 	BVQueries    int
 	PanicPaths   int
 	MaxPathSteps int
+}
+
+func (s *HarnessStats) noteRace(n int) {
+	if n > s.RaceEvents {
+		s.RaceEvents = n
+	}
 }
 
 func (s *HarnessStats) noteAssumption(a string) {
@@ -124,6 +131,13 @@ func (ex *Exec) resetPath(forced []int64) {
 	ex.curFrame = nil
 	ex.unknownBranches = 0
 	ex.formatCalls = 0
+	ex.fs = map[string]*fsFile{}
+	ex.fsHandles = map[*Obj]*fsHandle{}
+	ex.fsLog = nil
+	ex.traced = map[*Obj]bool{}
+	ex.tracedMaps = map[*MapV]bool{}
+	ex.curThread = 0
+	ex.raceEvents = nil
 	ex.formatFailAt = -1
 }
 
@@ -326,6 +340,9 @@ func mergeStats(name string, parts []*HarnessStats) *HarnessStats {
 		}
 		st.IntQueries += p.IntQueries
 		st.BVQueries += p.BVQueries
+		if p.RaceEvents > st.RaceEvents {
+			st.RaceEvents = p.RaceEvents
+		}
 	}
 	if len(st.Witnesses) > 3 {
 		st.Witnesses = st.Witnesses[:3]
